@@ -155,6 +155,9 @@ pub struct ReplayFile {
     pub minimised: bool,
     pub original_ops: usize,
     pub minimised_ops: usize,
+    /// engine B: the MIRIFLAGS of the worker (Miri seed and pre-emption rate are part of the execution)
+    #[serde(default)]
+    pub engine_flags: String,
     pub case: Case,
 }
 
